@@ -225,7 +225,8 @@ def args(chk, fx):
             continue
         txt = cn.c(rets[0]["value"])
         # the values taken from the stack: get<T>(move(*($2 + k)))
-        offs = [int(x) if x else 0 for x in re.findall(r"get\(move\(\*\(\$2 \+ (\d+)\)\)\)", txt)]
+        # either spelling of the k-th slot: *(start + k) or start[k]
+        offs = [int(a or b) for a, b in re.findall(r"get\(move\((?:\*\(\$2 \+ (\d+)\)|\$2\[(\d+)\])\)\)", txt)]
         n_vals = len(offs)
         extra = re.findall(r"get\(move\(\*\$2\)\)", txt)
         if extra:
